@@ -184,6 +184,12 @@ class Tools:
         if self.hv is None:
             self.err = 'extraction/OCaml build failed: ' + log[-600:]
             return
+        # a private copy: other checks may rebuild ocaml/_build while this one runs
+        import shutil
+        with vlib.locked('ocaml'):
+            priv = os.path.join(vlib.scratch(), 'hvmain.exe')
+            shutil.copy2(self.hv, priv)
+        self.hv = priv
         for attempt in range(4):
             self.xcmp, log = vlib.repo_tool('xcmp')
             if self.xcmp is not None:
